@@ -368,6 +368,12 @@ def run_check(prop, tier: str, seed: int, replay: Optional[str] = None) -> int:
         ctx.hygiene(prop.LEAN_SOURCES)
         if built:
             ctx.audit(prop.LEAN_MODULES[0], prop.THEOREMS)
+            if tier == "thorough" and not getattr(prop, "OWN_LEANCHECKER", False):
+                # the toolchain's independent re-checker replays the compiled declarations through the kernel
+                rc, out, err = sh(["lake", "env", "leanchecker"] + list(prop.LEAN_MODULES), cwd=LEAN, timeout=1800)
+                ctx.extra_cov["leanchecker"] = "ok" if rc == 0 else "failed"
+                if rc != 0:
+                    ctx.broken.append({"kind": "leanchecker", "modules": list(prop.LEAN_MODULES), "output": (out + err)[-1500:]})
         else:
             ctx.obligations.extend(prop.THEOREMS)
         # 4+5 findings stream and correspondence stream
